@@ -132,7 +132,7 @@ class Recorder:
                 raise
             else:
                 r.outcome = "returned"
-                if opname == "consume" and res is not None:
+                if opname in ("consume", "consume_inner") and res is not None:
                     k, payload, params = res
                     r.id = k.id_
                     r.result = {"payload": payload, "params": params_snapshot(params), "topic": k.topic,
@@ -162,6 +162,10 @@ class Recorder:
             counter[0] += 1
             cwho = f"{who}/c{counter[0]}"
             c._sim_who = cwho
+            mw = c.consume
+            if hasattr(mw, "fn") and hasattr(mw, "_repid_signal_emitter"):
+                # second layer *inside* repid's middleware wrapper: what the broker-level consume() returned
+                mw.fn = rec.wrap(c, "consume_inner", mw.fn, cwho, idx_of_key=None, kind="consumer")
             for op in rec.CONSUMER_OPS:
                 setattr(c, op, rec.wrap(c, op, getattr(c, op), cwho, idx_of_key=None, kind="consumer"))
             rec.consumers.append(c)
